@@ -152,6 +152,16 @@ def scale_cases(tier):
         for cycle in (False, True):
             for ugp in (False, True):
                 out.append({"shape": [h, w], "cycle": cycle, "api": "main", "ugp": ugp, "cfg": False, "patterns": pats})
+    # large family: the auxiliary split graph of a 7x7 frame has more than 256 nodes
+    for k in ((7,) if tier == "quick" else (7, 8, 10)):
+        orr = lambda a, b: [p_ or q for p_, q in zip(a, b)]  # noqa: E731
+        allc = [(y, x) for y in range(k) for x in range(k)]
+        pats = [region_boundary(k, k, allc), orr(region_boundary(k, k, [(0, 0)]), region_boundary(k, k, [(k - 1, k - 1)])), region_boundary(k, k, [(k - 1, k - 1)]),
+                orr(region_boundary(k, k, [(k - 2, k - 2)]), region_boundary(k, k, [(k - 1, k - 1)])), orr(region_boundary(k, k, [(0, k - 1)]), region_boundary(k, k, [(k - 1, 0)])),
+                region_boundary(k, k, graphref.serpentine(k, k))]
+        for cycle in (False, True):
+            for ugp in (False, True):
+                out.append({"shape": [k, k], "cycle": cycle, "api": "main", "ugp": ugp, "cfg": False, "patterns": pats})
     return out
 
 
@@ -217,7 +227,7 @@ def main(tier, seed, only=None):
         seed,
         "exploration",
         "BoolGridFrame sizes %s; ALL 2^m segment subsets; single_cycle off/on and the single_cycle_crossable alias; auxiliary and "
-        "native connectivity encodings (17-segment frames: auxiliary only).  Scale family (not exhaustive): on frames up to 4x4 / 3x5 (thorough 6x6) the perimeter, the serpentine "
+        "native connectivity encodings (17-segment frames: auxiliary only).  Scale family (not exhaustive): the 7x7 frame (thorough 10x10) with loops in opposite corners, and on frames up to 4x4 / 3x5 (thorough 6x6) the perimeter, the serpentine "
         "boundary, figure eights, two overlapping rectangles (two strands), disjoint cycles, an open perimeter.  Oracle: per-point degree rule (0/1/2/4, no 1 for "
         "cycles, 4 only at interior points) and one strand in the segment graph where the two straight pairs pass through each other "
         "at 4-way points; for every admitted subset OR(returned != expected) over both returned arrays must be UNSAT."
